@@ -494,7 +494,8 @@ impl AdaptiveCompressor {
         let mut hasher = DefaultHasher::new();
 
         // Sample bytes from different parts of the data
-        let sample_size = (data.len() / 10).max(1).min(1000);
+        // (never more samples than bytes: no sample at all for empty data)
+        let sample_size = (data.len() / 10).max(1).min(1000).min(data.len());
         for i in 0..sample_size {
             let idx = (i * data.len()) / sample_size;
             data[idx].hash(&mut hasher);
